@@ -1,5 +1,5 @@
 #!/bin/bash
-# usage: check.sh <property-id> quick|thorough        run the check (rebuilds from /repo's working tree)
+# usage: check.sh <property-id> quick|thorough        run the check (rebuilds from /repo's working tree; budgets: quick 75 s, thorough 600 s, VERIF_BUDGET overrides)
 #        check.sh <property-id> --replay <file>       re-execute a replay file
 # exit 0 = held on everything explored; 1 = VIOLATION line printed; 2 = build/internal trouble (never a VIOLATION line)
 set -u
@@ -21,7 +21,9 @@ fi
 if [ "$ID" = "C20" ]; then
   ( cd "$ROOT/pricesim" && ./build.sh "$REPO" ) >/tmp/verif-build-C20.log 2>&1 || { echo "BUILD FAILED (pricesim)"; tail -30 /tmp/verif-build-C20.log; exit 2; }
   if [ "$MODE" = "--replay" ]; then exec "$ROOT/pricesim/bin/pricesim" replay "${3:?file}"; fi
-  exec "$ROOT/pricesim/bin/pricesim" run --tier "$MODE" --seed "$SEED" --evidence "$EVDIR/C20.json" --replays "$RPDIR"
+  PB=""
+  if [ -n "${VERIF_BUDGET:-}" ]; then PB="--budget $VERIF_BUDGET"; elif [ "$MODE" = "thorough" ]; then PB="--budget 600"; fi
+  exec "$ROOT/pricesim/bin/pricesim" run --tier "$MODE" --seed "$SEED" --evidence "$EVDIR/C20.json" --replays "$RPDIR" $PB
 fi
 
 ( cd "$ROOT/sim" && go build $MODFLAG -tags verif -o "$ROOT/bin/layersim" ./cmd/layersim ) >/tmp/verif-build-$ID.log 2>&1 || { echo "BUILD FAILED (layersim against /repo working tree)"; tail -30 /tmp/verif-build-$ID.log; exit 2; }
@@ -31,7 +33,7 @@ if [ "$MODE" = "--replay" ]; then
 fi
 case "$MODE" in
   quick)    BUDGET="${VERIF_BUDGET:-75}" ;;
-  thorough) BUDGET="${VERIF_BUDGET:-1500}" ;;
+  thorough) BUDGET="${VERIF_BUDGET:-600}" ;;
   *) echo "mode must be quick|thorough|--replay"; exit 2 ;;
 esac
 "$ROOT/bin/layersim" batch --property "$ID" --tier "$MODE" --seed "$SEED" --budget "$BUDGET" --workers "${VERIF_WORKERS:-16}" \
